@@ -542,8 +542,14 @@ static void Table_Rem(var self, var key) {
 static var Table_Get(var self, var key) {
   struct Table* t = self;
   
+  /* A key handed out by this Table itself (by its iteration): no lookup needed.
+  ** Only a pointer to the KEY of an occupied slot qualifies: the values live in
+  ** the same storage and are ordinary keys when passed here */
   if (key >= t->data and ((char*)key) < ((char*)t->data) + t->nslots * Table_Step(self)) {
-    return Table_Val(self, (((char*)key) - ((char*)t->data)) / Table_Step(self));
+    uint64_t i = (((char*)key) - ((char*)t->data)) / Table_Step(self);
+    if (key is Table_Key(t, i) and Table_Key_Hash(t, i) isnt 0) {
+      return Table_Val(self, i);
+    }
   }
   
   key = cast(key, t->ktype);
